@@ -74,6 +74,7 @@ type sut struct {
 	c          *Case
 	ctx        *middleware.Context
 	handler    http.Handler
+	asking     http.Handler
 	calls      []call
 	authzCalls []interface{}
 	handlerRan int
@@ -168,6 +169,16 @@ func build(c *Case) (*sut, error) {
 	}
 	s.ctx = middleware.NewContext(doc, api, nil)
 	s.handler = s.ctx.RoutesHandler(nil)
+	// the same pipeline behind a middleware that asks Authorize for its own purposes (to log the principal,
+	// say), ignores the answer and leaves enforcement to the pipeline
+	s.asking = s.ctx.RoutesHandler(func(next http.Handler) http.Handler {
+		return http.HandlerFunc(func(w http.ResponseWriter, r *http.Request) {
+			if route := middleware.MatchedRouteFrom(r); route != nil {
+				_, _, _ = s.ctx.Authorize(r, route)
+			}
+			next.ServeHTTP(w, r)
+		})
+	})
 	return s, nil
 }
 
@@ -336,6 +347,34 @@ func runCase(m *mon.M, c *Case) {
 			}
 			m.SetAdd("call-orders", fmt.Sprintf("%s/%s:%s", sh[:6], op.ID, orderShape(s.calls)))
 			judgeHandler(m, c, s, rq, alts, ref, rec, feat, one, reg)
+
+			// ---- entry point 1b: the full handler behind a middleware that already asked Authorize ----
+			// What the earlier asker was told must not open the door: the handler still runs only on a warrant.
+			if len(alts) > 0 {
+				s.calls, s.authzCalls, s.handlerRan, s.consumed = nil, nil, 0, 0
+				recB := httptest.NewRecorder()
+				reqB := s.request(rq)
+				pv, st = mon.Catch(func() { s.asking.ServeHTTP(recB, reqB) })
+				m.Eval(1)
+				if pv != nil {
+					m.Violate("panic-behind-asking-middleware/"+feat, fmt.Sprintf("panic: %v\n%s", pv, st), one)
+					continue
+				}
+				rejectersB := consultedRejecters(s, rq.Outcomes)
+				warranted := len(ref.satisfied) > 0 || (ref.hasAnon && len(rejectersB) == 0)
+				denies := strings.HasPrefix(c.Authorizer, "deny")
+				passed := s.handlerRan > 0 || s.consumed > 0 || recB.Code == 422 || recB.Code == 415 || recB.Code == 406 || recB.Code == 400
+				if passed && (!warranted || denies) {
+					m.Violate("admitted-after-an-earlier-asker-was-refused/"+feat, fmt.Sprintf("op=%s alternatives=%v registered=%v authorizer=%s outcomes=%v calls=%s: a middleware called Context.Authorize (refused) and passed the request on: status %d, handler ran %d times, consumer %d",
+						c.Desc.Ops[rq.Op].ID, alts, c.Registered, c.Authorizer, rq.Outcomes, callOrder(s.calls), recB.Code, s.handlerRan, s.consumed), one)
+					continue
+				}
+				if s.handlerRan > 1 {
+					m.Violate("handler-ran-twice-behind-asking-middleware/"+feat, fmt.Sprintf("handler ran %d times", s.handlerRan), one)
+					continue
+				}
+				m.Class("behind-asking-middleware")
+			}
 
 			// ---- entry point 2: Context.Authorize ----
 			s.calls, s.authzCalls, s.handlerRan, s.consumed = nil, nil, 0, 0
